@@ -28,6 +28,28 @@ RULES = {
 UTC = 'datetime.timezone.utc'
 
 
+def _utc_result(v):
+    return isinstance(v, Sym) and v.op == 'extcall' and \
+        v.args[0] == 'datetime.datetime.fromtimestamp' and \
+        (is_utc(dict(v.args[2]).get('tz')) or
+         (len(v.args[1]) >= 2 and is_utc(v.args[1][1])))
+
+
+def decoder_utc(ctx):
+    """(ok, text): every return of decode.timestamp is
+    fromtimestamp(..., tz=utc) itself."""
+    enc, dec = pairs.methods_tables(ctx)
+    td = dec.get('timestamp')
+    if td is None:
+        return False, 'no timestamp decoder'
+    D = pairs.dec_desc(ctx, td)
+    bad = [T.show(dp.value)[:120] for dp in D.paths
+           if not _utc_result(dp.value)]
+    return not bad, ('built by fromtimestamp(..., tz=utc)' if not bad else
+                     'returns %s: the value is built from local time (and '
+                     'only labelled UTC) or converted afterwards' % bad[0])
+
+
 def scan_tz_calls(prog, module_infos):
     """Classify every call expression by its statically resolved dotted
     name.  -> (ncalls, [(site, what)])"""
@@ -230,12 +252,13 @@ def run(chk, ctx):
     dsite = '%s:%d' % (td.module.relpath, td.node.lineno)
     for dp in D.paths:
         v = dp.value
-        okk = isinstance(v, Sym) and v.op == 'extcall' and \
-            v.args[0] == 'datetime.datetime.fromtimestamp' and \
-            (is_utc(dict(v.args[2]).get('tz')) or
-             (len(v.args[1]) >= 2 and is_utc(v.args[1][1])))
+        okk = _utc_result(v)
         chk.ob('C15.U', 'decode.timestamp result', okk,
                'returns %s' % T.show(v)[:160], site=dsite)
+    # ... and the instant decoded is the instant encoded, up to 2106
+    from .. import tsrules as _ts
+    for cons_, okk_, why_ in _ts.timestamp_decode_rule(ctx):
+        chk.ob('C15.U', cons_, okk_, why_, site=dsite)
     chk.floor('C15.U', 1, 'decoder results')
     chk.assume('calendar arithmetic inside CPython (timegm, aware '
                'timestamp()) is time-zone independent as documented')
